@@ -32,7 +32,7 @@ CONFIGS = {
     "tsan": ["-O1", "-g1", "-fsanitize=thread"],
     "syntax": ["-fsyntax-only"],
     # a second compiler front end (clang 14 with libstdc++): builtins and template machinery that g++ 12 does not have
-    "clang": ["CXX=clang++-14", "-O0"],
+    "clang": ["CXX=clang++-14", "-O0", "-Wno-c++11-narrowing"],   # (g++ accepts the narrowing in braces that clang rejects)
 }
 BASE_FLAGS = ["-std=c++20", f"-D{GUARD}", "-w", f"-I{INC}", f"-I{VERIF / 'harness' / 'cpp'}"]
 SAN_ENV = {
